@@ -256,7 +256,7 @@ func runReplyTab(c *core.Ctx) {
 		"ClientAuthMsg":  {"nil"},
 	}
 	sqliteWant := map[string][]string{
-		"ClientEventMsg": {"OK", "?err"}, // err: the session context ended while queueing
+		"ClientEventMsg": {"OK", "?err"},           // err: the session context ended while queueing
 		"ClientReqMsg":   {"?EOSE", "Event*,EOSE"}, // a bare EOSE (query failed) is a special case of Event*,EOSE
 		"ClientCountMsg": {"COUNT"},
 		"ClientCloseMsg": {"nil"},
